@@ -1,5 +1,5 @@
 """C13 configuration, known-finding predicates, model-search hooks."""
-from props import predicate, kv
+from props import predicate, kv, unhex
 
 
 CONFIG = {
@@ -12,19 +12,21 @@ CONFIG = {
                   "(pre-filter, all-bound shortcut, populate_bindings on variables / blank placeholders / quoted-triple patterns) returns exactly "
                   "the algebra's pattern instance mappings with their multiplicities and never panics; UNION / FILTER / BIND / GRAPH <iri> / GRAPH ?g (pre-binding = join, for BGP/UNION/FILTER bodies, on every dataset) / "
                   "projection / DISTINCT / OFFSET-LIMIT / ASK equal SPARQL 1.1 section 18; every constructor outside the fragment, CONSTRUCT, "
-                  "DESCRIBE and dataset clauses yield NotImplemented per the dispatch table regenerated from exec.rs / wrapper.rs on every run. "
+                  "DESCRIBE and dataset clauses with a `named` list (what the parser produces for any FROM) yield NotImplemented per the dispatch table "
+                  "regenerated from exec.rs / wrapper.rs on every run, and a refused operator anywhere outside an EXISTS pattern makes the whole "
+                  "query fail (refusal_both). "
                   "The model is tied to the real engine differentially (LightDataset and FastDataset, queries parsed by the real spargebra, "
                   "0 disagreements required). Sub-selects, BIND or nested GRAPH ?y inside GRAPH ?g, and the value-level expression operators "
-                  "(=, <, STR, LANG, DATATYPE) are covered by the differential against the executable specification only; three deviations "
-                  "there are known findings with kernel-checked witnesses (two more were repaired in /repo: e4da433, d984918; their inputs "
-                  "stay in corpus/C13).",
+                  "(=, <, >, <=, >=, + - * unary, IN, IF, COALESCE, STR, LANG, DATATYPE), FILTER [NOT] EXISTS and programmatic FROM (named: None) are "
+                  "covered by the differential against the executable specification only; eight deviations there are known findings, seven with "
+                  "kernel-checked witnesses (two more were repaired in /repo: e4da433, d984918; their inputs stay in corpus/C13).",
     "level_note": "Trusted: the transcription of SPARQL 1.1 sections 17/18 (SparqlSpec.lean); the hand-written implementation model "
                   "(Sparql.lean) up to the differential; spargebra; the in-memory store as a quad set (C01). eval_correct is _partial: it "
                   "excludes sub-selects, restricts what may stand inside GRAPH ?g, and assumes ExprOK (proved for BOUND/sameTerm/isIRI/isBlank/isLiteral closed under !, ||, &&); "
                   "the unrestricted statement is refuted (evalCorrectFull_refuted). Row order is not modelled (OFFSET/LIMIT: size + containment).",
     "tables": ["sparql_dispatch"],
     "lean_targets": ["SophiaProofs.Props.C13", "SophiaProofs.Audit.C13"],
-    "theorems": ['bgp_correct', 'bgp_multiset', 'single_graph_nodup', 'body_correct', 'graph_var_correct', 'ask_graph_var_correct', 'eval_correct_partial', 'ask_correct', 'slice_sound', 'dispatch_total', 'unsupported_err', 'fragment_refused', 'dispatch_model', 'query_dispatch', 'spec_refuses', 'no_panic', 'exprOK_termlevel', 'or_and_tables', 'evalD_none', 'evalCorrectFull_refuted', 'dev_graph_prebind', 'dev_proj_leak', 'dev_ebv_illtyped', 'fixed_empty_named', 'fixed_or_strict'],
+    "theorems": ['bgp_correct', 'bgp_multiset', 'single_graph_nodup', 'body_correct', 'graph_var_correct', 'ask_graph_var_correct', 'eval_correct_partial', 'ask_correct', 'slice_sound', 'dispatch_total', 'unsupported_err', 'fragment_refused', 'dispatch_model', 'query_dispatch', 'refusal_both', 'gen_flags', 'no_panic', 'exprOK_termlevel', 'or_and_tables', 'evalD_none', 'evalCorrectFull_refuted', 'dev_graph_prebind', 'dev_proj_leak', 'dev_ebv_illtyped', 'dev_in_strict', 'dev_if_ebv', 'dev_exists_swallow', 'dev_from_unmerged', 'fixed_empty_named', 'fixed_or_strict'],
     "native_ok": [],
     "trivial_re": r"^skip|errclass=notimpl|rows=0/|^errclass=none ask=0",
     "rule": "per run: ~100 fixed SPARQL texts (every unsupported operator: OPTIONAL, MINUS, VALUES, aggregates/GROUP BY/HAVING, paths, "
@@ -42,12 +44,17 @@ CONFIG = {
             "OFFSET-LIMIT. Effectiveness is measured on the real engine while generating and reported in the stats (eff.*: non-empty "
             "results, >= 2 rows, heterogeneous rows; flow.<operator>.*: rows flowing into each operator, DISTINCT removing rows, "
             "filters keeping some and dropping some, both UNION sides non-empty). "
+            "Expressions use the whole modelled core (= < > <= >= + - * unary && || ! IN / NOT IN, IF, COALESCE, BOUND, sameTerm, isIRI/isBlank/"
+            "isLiteral, STR, LANG, DATATYPE; integers up to isize::MIN/MAX and beyond), FILTER [NOT] EXISTS correlated through shared variables "
+            "(now and then with a refused operator inside), blank-node labels spelled like variables; algebra built directly covers dataset "
+            "clauses with named: None. Counters expr.*, alg.* show how often each form occurs. "
             "Texts are parsed by the real spargebra; the request carries the algebra. A case is non-trivial when the engine returns at "
             "least one row / true; distinct = distinct request lines",
     "trusted_base": ["transcription of SPARQL 1.1 sections 17.2-17.4 (core) and 18.3-18.6 in lean/SophiaModel/Model/SparqlSpec.lean",
                      "spargebra 0.3.5 (parser and translation to the algebra): the request carries the algebra it produced",
                      "sophia_inmem quads_matching = filter over the quad set (property C01); LightDataset and FastDataset are both run and must agree",
                      "hand-written implementation model lean/SophiaModel/Model/Sparql.lean (tied by the differential: 0 disagreements required)"],
+    "exec_timeout": 3600,
     "assumptions": ["row order is not compared (multisets); Slice is checked by size + containment in the unsliced result",
                     "xsd:integer lexical forms without '_' (num-bigint accepts '1_0'); decimals/floats/doubles/dateTimes/derived integer types "
                     "only take part in pattern matching, requests combining them with an expression are skipped"],
@@ -86,6 +93,52 @@ def c13_graph_prebind(failure):
 def c13_ebv_strict(failure):
     """EBV of an ill-typed xsd:integer is an error instead of false"""
     return _c13_dev(failure, "ebvStrict")
+
+
+@predicate
+def c13_in_strict(failure):
+    """IN stops at the first element whose comparison errs, although a later element is equal"""
+    return _c13_dev(failure, "inStrict")
+
+
+@predicate
+def c13_if_ebv_false(failure):
+    """IF(c, t, e): an error of the effective boolean value of c selects e instead of raising an error"""
+    return _c13_dev(failure, "ifEbvFalse")
+
+
+@predicate
+def c13_exists_swallow(failure):
+    """an operator the engine refuses, inside FILTER [NOT] EXISTS, is answered as 'no solution'"""
+    return _c13_dev(failure, "existsSwallow")
+
+
+@predicate
+def c13_from_default(failure):
+    """QueryDataset { default: [..], named: None } (programmatic only): FROM graphs are not merged and
+    GRAPH ?g still ranges over the store's named graphs"""
+    if failure.get("kind") != "impl-vs-oracle" or " nonamed " not in failure["request"]:
+        return False
+    I, M = kv(failure["impl"]), kv(failure["model"])
+    if any(k.startswith("FAIL.") or k == "panic" for k in I) or I.get("errclass") != "none":
+        return False
+    return all(not (k in I and I[k] != v) for k, v in M.items() if not k.startswith(("o.", "k.")))
+
+
+_NEG_PANIC = "attempt to negate with overflow".encode().hex()
+
+
+@predicate
+def c13_neg_overflow_panic(failure):
+    """unary minus on NativeInt(isize::MIN) panics (debug) / wraps (release)"""
+    if failure.get("field") != "panic" or kv(failure["impl"]).get("panic") != _NEG_PANIC:
+        return False
+    req = failure["request"]
+    if req.startswith("raw "):
+        # the smallest native integer occurs in the data or in the query text, and the text negates
+        text = unhex(req.split()[-1])
+        return "-9223372036854775808".encode().hex() in req and "-" in text
+    return kv(failure["model"]).get("k.negmin") == "1"
 
 
 def _c13_search_requests(lines):
